@@ -6,7 +6,7 @@
    satisfiable (codec_laws_satisfiable). *)
 From Coq Require Import List NArith Bool Permutation.
 From V Require Import lib.Strs gen.Consts model.ClientRead model.SelfEnc
-  proofs.SelfEncPartition proofs.SelfEncLists proofs.SelfEnc proofs.SelfEncMore proofs.SelfEncBound.
+  proofs.SelfEncPartition proofs.SelfEncLists proofs.SelfEnc proofs.SelfEncMore proofs.SelfEncBound proofs.SelfEncPackShape.
 Import ListNotations.
 Open Scope N_scope.
 
@@ -108,6 +108,15 @@ Theorem produced_chunk_le_max_outside_known : forall C MAX fuel d r,
   (forall k x, lenN x <= MAX + 1 -> lenN (c_tr C k x) <= MAX) ->
   forall c, In c (all_chunks r) -> lenN (k_value c) <= MAX.
 Proof. exact produced_le_max_outside_known_lemma. Qed.
+
+(* the size-level acceptor that the correspondence run evaluates on the data-map levels the real
+   code produced accepts every successful run of the model's packing loop (for a codec whose
+   serialised chunk has msgpack's bin header sizes) *)
+Theorem pack_accepted_by_size_acceptor : forall C MAX,
+  codec_sizes C -> (forall b, lenN (c_ser C b) = ser_len (lenN b)) ->
+  forall fuel lvl acc r, pack C MAX fuel lvl acc = inl r ->
+  agree_pack MAX (pack_trace C MAX fuel lvl) = true.
+Proof. exact pack_trace_accepted. Qed.
 
 (* inputs of fewer than MIN_ENCRYPTABLE_BYTES = 3 bytes are rejected *)
 Theorem too_small_rejected : forall C MAX fuel d, lenN d < 3 -> encrypt C MAX fuel d = inr ETooSmall.
